@@ -59,8 +59,20 @@ fn mix(mut z: u64) -> u64 {
     z ^ (z >> 31)
 }
 
+thread_local! {
+    /// set while the harness materialises lazy values to observe them: whatever their callbacks
+    /// print then is discarded, so observation never changes the recorded output
+    static OBSERVING: Cell<bool> = const { Cell::new(false) };
+}
+pub fn set_observing(on: bool) {
+    OBSERVING.with(|o| o.set(on));
+}
+
 impl Write for SimWriter {
     fn write(&mut self, buf: &[u8]) -> io::Result<usize> {
+        if OBSERVING.with(|o| o.get()) {
+            return Ok(buf.len());
+        }
         let mut st = self.0.lock().unwrap();
         st.stats.write_calls += 1;
         if buf.is_empty() {
@@ -108,32 +120,118 @@ impl Write for SimWriter {
 }
 impl WriteMaybeExtractable for SimWriter {}
 
-/// Input source: a fixed byte script, optionally delivered one byte at a time.
-pub struct SimReader {
+/// Input source (seam S3): a fixed byte script with a fault plan. All behaviour is a function of
+/// the plan and of the call counter.
+#[derive(Debug, Default, Clone)]
+pub struct ReaderStats {
+    pub fill_calls: u64,
+    pub eintr: u64,
+    pub errors: u64,
+    pub eof_seen: u64,
+}
+
+#[derive(Debug, Default)]
+pub struct ReaderState {
     pub data: Vec<u8>,
     pub pos: usize,
+    /// deliver at most one byte per `fill_buf`
     pub one_byte: bool,
+    /// every k-th `fill_buf` call is interrupted first (0 = never)
+    pub eintr_every: u32,
+    /// one-shot read error, delivered when a read is attempted at exactly this offset
+    pub err_at: Option<usize>,
+    /// after end-of-input has been reported once, start again from the beginning (a terminal after
+    /// Ctrl-D); used by the builtin sweep so that every call sees data
+    pub rewind: bool,
+    pub at_eof: bool,
+    pub stats: ReaderStats,
 }
+
+#[derive(Clone)]
+pub struct SimReader(pub Arc<Mutex<ReaderState>>);
+
+impl SimReader {
+    pub fn new(data: Vec<u8>) -> SimReader {
+        SimReader(Arc::new(Mutex::new(ReaderState {
+            data,
+            ..ReaderState::default()
+        })))
+    }
+    /// (start, end) of the bytes the next read may see, or the fault to deliver
+    fn window(&self) -> io::Result<(usize, usize)> {
+        let mut st = self.0.lock().unwrap();
+        st.stats.fill_calls += 1;
+        if st.eintr_every != 0 && st.stats.fill_calls % (st.eintr_every as u64) == 0 {
+            st.stats.eintr += 1;
+            return Err(io::Error::new(io::ErrorKind::Interrupted, "sim: EINTR"));
+        }
+        if st.err_at == Some(st.pos) {
+            st.err_at = None;
+            st.stats.errors += 1;
+            return Err(io::Error::new(io::ErrorKind::Other, "sim: input/output error"));
+        }
+        if st.at_eof && st.rewind {
+            st.at_eof = false;
+            st.pos = 0;
+        }
+        let mut end = st.data.len();
+        if let Some(k) = st.err_at {
+            if k > st.pos {
+                end = end.min(k);
+            }
+        }
+        if st.one_byte {
+            end = end.min(st.pos + 1);
+        }
+        if end == st.pos {
+            st.stats.eof_seen += 1;
+            st.at_eof = true;
+        }
+        Ok((st.pos, end))
+    }
+}
+
 impl Read for SimReader {
     fn read(&mut self, buf: &mut [u8]) -> io::Result<usize> {
-        let avail = self.fill_buf()?;
-        let n = avail.len().min(buf.len());
-        buf[..n].copy_from_slice(&avail[..n]);
-        self.consume(n);
+        if buf.is_empty() {
+            return Ok(0);
+        }
+        let (a, b) = self.window()?;
+        let n = (b - a).min(buf.len());
+        let mut st = self.0.lock().unwrap();
+        buf[..n].copy_from_slice(&st.data[a..a + n]);
+        st.pos = a + n;
         Ok(n)
     }
 }
-impl BufRead for SimReader {
+
+/// `BufRead::fill_buf` has to hand out a slice that outlives the lock: the window is copied into a
+/// buffer owned by the handle.
+pub struct SimBufReader {
+    pub inner: SimReader,
+    buf: Vec<u8>,
+}
+impl SimBufReader {
+    pub fn new(inner: SimReader) -> SimBufReader {
+        SimBufReader { inner, buf: Vec::new() }
+    }
+}
+impl Read for SimBufReader {
+    fn read(&mut self, buf: &mut [u8]) -> io::Result<usize> {
+        self.inner.read(buf)
+    }
+}
+impl BufRead for SimBufReader {
     fn fill_buf(&mut self) -> io::Result<&[u8]> {
-        let end = if self.one_byte {
-            (self.pos + 1).min(self.data.len())
-        } else {
-            self.data.len()
-        };
-        Ok(&self.data[self.pos..end])
+        let (a, b) = self.inner.window()?;
+        let st = self.inner.0.lock().unwrap();
+        self.buf.clear();
+        self.buf.extend_from_slice(&st.data[a..b]);
+        Ok(&self.buf)
     }
     fn consume(&mut self, amt: usize) {
-        self.pos = (self.pos + amt).min(self.data.len());
+        let mut st = self.inner.0.lock().unwrap();
+        st.pos = (st.pos + amt).min(st.data.len());
     }
 }
 
